@@ -19,6 +19,8 @@ OBLIGATIONS = [
     (P + "torn_counterexample_values", "witness 1 loads as (new deadline, new[0..20]++old[20..]), neither new nor old; it is a TornNew collision"),
     (P + "torn_counterexample_sector", "witness 2: pure 512-byte sector tear of a completed save of 600 bytes loads as a mixture"),
     (P + "torn_mixture_for_every_payload", "scope of the finding: EVERY payload >= 6 bytes and every tear position 1..|d|-5 has an adversarial earlier value whose torn mixture loads (CRC-32 affine; proved in general)"),
+    (P + "crash_bytewise", "every byte of a crash state is the completed save's byte, the earlier file's byte, or a zero: torn values are byte-wise mixtures"),
+    (P + "only_sid_named_files_touched", "save/crashed save/load/remove touch only their sid's file; gc only 32-hex names"),
     (P + "crash_wellformed", "crash states are again well-formed earlier states (theorems compose along histories)"),
     (P + "saveComplete_wellformed", "so are complete saves"),
     (P + "saveComplete_is_crash", "the complete save is a crash state (non-vacuity of Crash)"),
@@ -270,6 +272,7 @@ def seq_case(rng, big):
             ops.append("ls")
         elif r < 0.78:
             ops.append(f"remove {sid}")
+            ops.append("ls")
         elif r < 0.88:
             ops.append("gc")
         else:
@@ -319,6 +322,9 @@ def gen_cases(c, scale):
         cases.append(crash_case(rng, big))
     for _ in range(4 * scale):
         cases.append(crash_case(rng, 70000))
+    for n in (65535, 65536, 70001):                    # payloads that do not fit 16 bits: complete save, and a torn one
+        cases.append(crash_case(rng, big, S=512, d=rb(rng, n), k=2, j=0, mask="all", oldops=[], wf=True, now=1000))
+        cases.append(crash_case(rng, big, S=512, d=rb(rng, n), k=1, j=n - 3, mask="all", oldops=[f"save SID 1500 {hexs(rb(rng, 100))}"], wf=True, now=1000))
     for _ in range(12 * scale):
         cases.append(adv_case(rng))
     for _ in range(800 * scale):
@@ -354,6 +360,11 @@ def judge(c, model, cases, metas, out_i):
                 tainted.add(op[1])
             elif op[0] in ("save", "csave", "ksave"):
                 saved.setdefault(op[1], set()).add((int(op[2]), op[3]))
+            elif op[0] == "remove":
+                if n + 1 < len(ops) and ops[n + 1][0] == "ls":
+                    names = [e.split(":")[0] for e in outs[n + 1].split(",")] if outs[n + 1] != "-" else []
+                    if op[1] in names:
+                        bad.append((k, "remove left the file"))
             elif op[0] == "load":
                 njudged += 1
                 if a.startswith("ok "):
